@@ -59,6 +59,11 @@ func actionFor(p *probeDef) Action {
 	if p.Configurable {
 		return Action{Applies: true, Status: int(lint.Pass), Echo: true}
 	}
+	if strings.HasSuffix(p.Name, "_none") {
+		// unscripted plain probes without a window apply and pass: like most real rules they keep
+		// what their applicability test saw in the instance and use it in the rule body (sameObject)
+		return Action{Applies: true, Status: int(lint.Pass)}
+	}
 	return Action{Applies: false}
 }
 
@@ -119,6 +124,17 @@ type probeInst struct {
 	def *probeDef
 	id  int64
 	cfg ProbeCfg
+	// the object the applicability test was asked about: a rule may keep what it computed there for its
+	// body, which is sound only if each execution has an instance of its own
+	seen any
+}
+
+// sameObject: the rule body is asked about the object the applicability test of this instance saw.
+func (p *probeInst) sameObject(o any, r *lint.LintResult) *lint.LintResult {
+	if p.seen != nil && p.seen != o {
+		return &lint.LintResult{Status: lint.Error, Details: "zsim: this instance's applicability test was asked about another object than its rule body"}
+	}
+	return r
 }
 
 func newInst(d *probeDef) probeInst {
@@ -166,23 +182,23 @@ type crlProbeC struct{ probeInst }
 type ocspProbe struct{ probeInst }
 type ocspProbeC struct{ probeInst }
 
-func (p *certProbe) CheckApplies(*x509.Certificate) bool          { return p.applies() }
-func (p *certProbe) Execute(*x509.Certificate) *lint.LintResult   { return p.execute() }
-func (p *certProbeC) CheckApplies(*x509.Certificate) bool         { return p.applies() }
-func (p *certProbeC) Execute(*x509.Certificate) *lint.LintResult  { return p.execute() }
-func (p *certProbeC) Configure() interface{}                      { return p.configure() }
-func (p *crlProbe) CheckApplies(*x509.RevocationList) bool        { return p.applies() }
-func (p *crlProbe) Execute(*x509.RevocationList) *lint.LintResult { return p.execute() }
-func (p *crlProbeC) CheckApplies(*x509.RevocationList) bool       { return p.applies() }
-func (p *crlProbeC) Execute(*x509.RevocationList) *lint.LintResult {
-	return p.execute()
+func (p *certProbe) CheckApplies(c *x509.Certificate) bool          { p.seen = c; return p.applies() }
+func (p *certProbe) Execute(c *x509.Certificate) *lint.LintResult   { return p.sameObject(c, p.execute()) }
+func (p *certProbeC) CheckApplies(c *x509.Certificate) bool         { p.seen = c; return p.applies() }
+func (p *certProbeC) Execute(c *x509.Certificate) *lint.LintResult  { return p.sameObject(c, p.execute()) }
+func (p *certProbeC) Configure() interface{}                        { return p.configure() }
+func (p *crlProbe) CheckApplies(c *x509.RevocationList) bool        { p.seen = c; return p.applies() }
+func (p *crlProbe) Execute(c *x509.RevocationList) *lint.LintResult { return p.sameObject(c, p.execute()) }
+func (p *crlProbeC) CheckApplies(c *x509.RevocationList) bool       { p.seen = c; return p.applies() }
+func (p *crlProbeC) Execute(c *x509.RevocationList) *lint.LintResult {
+	return p.sameObject(c, p.execute())
 }
-func (p *crlProbeC) Configure() interface{}                 { return p.configure() }
-func (p *ocspProbe) CheckApplies(*ocsp.Response) bool       { return p.applies() }
-func (p *ocspProbe) Execute(*ocsp.Response) *lint.LintResult { return p.execute() }
-func (p *ocspProbeC) CheckApplies(*ocsp.Response) bool      { return p.applies() }
-func (p *ocspProbeC) Execute(*ocsp.Response) *lint.LintResult {
-	return p.execute()
+func (p *crlProbeC) Configure() interface{}                   { return p.configure() }
+func (p *ocspProbe) CheckApplies(c *ocsp.Response) bool       { p.seen = c; return p.applies() }
+func (p *ocspProbe) Execute(c *ocsp.Response) *lint.LintResult { return p.sameObject(c, p.execute()) }
+func (p *ocspProbeC) CheckApplies(c *ocsp.Response) bool      { p.seen = c; return p.applies() }
+func (p *ocspProbeC) Execute(c *ocsp.Response) *lint.LintResult {
+	return p.sameObject(c, p.execute())
 }
 func (p *ocspProbeC) Configure() interface{} { return p.configure() }
 
